@@ -324,3 +324,233 @@ Proof.
   pose proof (tree_flat_gen h 0 aw Hacc Hg tr rv b) as H.
   rewrite (tmap_root aw tr Hr), (route_root aw b Hb) in H. exact H.
 Qed.
+
+(* ------------------------------------------------------------------ the leaves' windows *)
+
+Definition hl_in (L : hleaf) (a : Z) : Prop := hl_base L <= a < hl_base L + 2 ^ hl_aw L.
+Definition hl_inb (L : hleaf) (a : Z) : bool := (hl_base L <=? a) && (a <? hl_base L + 2 ^ hl_aw L).
+Definition hl_disj (L1 L2 : hleaf) : Prop :=
+  hl_base L1 + 2 ^ hl_aw L1 <= hl_base L2 \/ hl_base L2 + 2 ^ hl_aw L2 <= hl_base L1.
+Definition hl_inside (lo hi : Z) (L : hleaf) : Prop :=
+  lo <= hl_base L /\ hl_base L + 2 ^ hl_aw L <= hi /\ 0 <= hl_aw L.
+
+Lemma hl_inb_iff L a : hl_inb L a = true <-> hl_in L a.
+Proof. unfold hl_inb, hl_in. lia. Qed.
+
+Lemma hl_in_span L a : hl_in L a <-> PD.in_span (hl_sub L) a.
+Proof. reflexivity. Qed.
+
+Lemma leaves_inside h : forall base aw, 0 <= aw -> geom aw h ->
+  Forall (hl_inside base (base + 2 ^ aw)) (hw_leaves_from base aw h).
+Proof.
+  induction h as [c ids|aw' subs IH] using chw_ind'; intros base aw Haw Hg.
+  - cbn [hw_leaves_from]. constructor; [|constructor]. unfold hl_inside. cbn. lia.
+  - apply geom_dec in Hg as (-> & Hwf & _ & Hkids). rewrite hw_leaves_dec.
+    rewrite Forall_forall in IH, Hkids, Hwf |- *. intros L HL.
+    apply in_flat_map in HL as (p & Hp & HL).
+    assert (Hw : PD.wf_sub aw (fst p)) by (apply Hwf; apply in_map; exact Hp).
+    pose proof Hw as (H0 & H1 & _ & H3).
+    pose proof (IH p Hp (base + s_start (fst p)) _ H0 (Hkids p Hp)) as HI. rewrite Forall_forall in HI.
+    destruct (HI L HL) as (A & B & C). unfold hl_inside. lia.
+Qed.
+
+Lemma leaves_disjoint h : forall base aw, 0 <= aw -> geom aw h ->
+  ForallOrdPairs hl_disj (hw_leaves_from base aw h).
+Proof.
+  induction h as [c ids|aw' subs IH] using chw_ind'; intros base aw Haw Hg.
+  - cbn [hw_leaves_from]. constructor; [constructor|constructor].
+  - apply geom_dec in Hg as (-> & Hwf & Hdisj & Hkids). rewrite hw_leaves_dec.
+    induction subs as [|p subs IHs]; [constructor|].
+    cbn [flat_map map] in *.
+    inversion IH as [|? ? IHp IH']; subst. inversion Hwf as [|? ? Hw Hwf']; subst.
+    inversion Hdisj as [|? ? Hd Hdisj']; subst. inversion Hkids as [|? ? Hk Hkids']; subst.
+    pose proof Hw as (H0 & H1 & _ & H3).
+    apply PD.FOP_app; [apply IHp; assumption|apply IHs; assumption|].
+    intros L1 L2 HL1 HL2.
+    pose proof (leaves_inside (snd p) (base + s_start (fst p)) _ H0 Hk) as HI1. rewrite Forall_forall in HI1.
+    destruct (HI1 _ HL1) as (A1 & B1 & C1).
+    apply in_flat_map in HL2 as (q & Hq & HL2).
+    rewrite Forall_forall in Hkids', Hwf', Hd.
+    assert (Hwq : PD.wf_sub aw (fst q)) by (apply Hwf'; apply in_map; exact Hq).
+    pose proof Hwq as (Q0 & _).
+    pose proof (leaves_inside (snd q) (base + s_start (fst q)) _ Q0 (Hkids' q Hq)) as HI2. rewrite Forall_forall in HI2.
+    destruct (HI2 _ HL2) as (A2 & B2 & C2).
+    pose proof (Hd (fst q) (in_map fst _ _ Hq)) as Hdq. unfold PD.span_disj in Hdq. unfold hl_disj. lia.
+Qed.
+
+(* every multiplexer of a well-formed tree is a well-formed configuration with one id per register *)
+Definition hl_wf (L : hleaf) : Prop :=
+  wf_cfg (hl_cfg L) /\ length (hl_ids L) = length (Mux.c_regs (hl_cfg L)).
+
+Lemma hw_wf_leaves h : forall base aw, hw_wf h -> Forall hl_wf (hw_leaves_from base aw h).
+Proof.
+  induction h as [c ids|aw' subs IH] using chw_ind'; intros base aw Hwf.
+  - cbn [hw_leaves_from]. constructor; [exact Hwf|constructor].
+  - apply hw_wf_dec in Hwf. rewrite hw_leaves_dec. rewrite Forall_forall in IH, Hwf |- *.
+    intros L HL. apply in_flat_map in HL as (p & Hp & HL).
+    pose proof (IH p Hp (base + s_start (fst p)) (s_aw (fst p)) (Hwf p Hp)) as HI. rewrite Forall_forall in HI. exact (HI L HL).
+Qed.
+
+(* ------------------------------------------------------------------ r_data: the addressed leaf's *)
+
+Lemma leaf_st_snoc L tr x :
+  leaf_st L (tr ++ [x]) = Mux.next (hl_cfg L) (leaf_st L tr) (leaf_inp L x).
+Proof. unfold leaf_st, leaf_is. rewrite map_app. cbn [map]. apply MuxBasic.state_after_app. Qed.
+
+(* a leaf that was not addressed in the last cycle (or saw no read strobe) returns zero *)
+Lemma leaf_rdata_unaddressed L tr b rv : wf_cfg (hl_cfg L) ->
+  r_stb b = false \/ ~ hl_in L (addr b) -> leaf_rdata L (tr ++ [(b, rv)]) = 0.
+Proof.
+  intros Hwf Hq. unfold leaf_rdata. rewrite leaf_st_snoc. apply MuxRead.bus_rdata_idle; [exact Hwf|].
+  left. unfold leaf_inp, mux_inp. cbn [Mux.i_rstb fst]. unfold PD.route.
+  destruct (PD.in_spanb (hl_sub L) (addr b)) eqn:E; cbn [r_stb]; [|reflexivity].
+  destruct Hq as [Hq|Hq]; [exact Hq|]. exfalso. apply Hq. apply hl_in_span. apply PD.in_spanb_iff. exact E.
+Qed.
+
+Lemma leaf_rdata_nil L : leaf_rdata L [] = 0.
+Proof. apply MuxRead.bus_rdata_init. Qed.
+
+Theorem tree_rdata_addressed aw h : 0 <= aw -> geom aw h -> hw_wf h ->
+  forall tr b rv, in_range aw (tr ++ [(b, rv)]) ->
+  let s := c_after h (cinit h) (tr ++ [(b, rv)]) in
+  (forall L, In L (hw_leaves aw h) -> hl_in L (addr b) -> c_rdata h s = leaf_rdata L (tr ++ [(b, rv)])) /\
+  ((forall L, In L (hw_leaves aw h) -> ~ hl_in L (addr b)) -> c_rdata h s = 0) /\
+  (r_stb b = false -> c_rdata h s = 0).
+Proof.
+  intros Haw Hg Hwf tr b rv Hr s.
+  assert (Hb0 : 0 <= addr {| addr := 0; r_stb := false; w_stb := false; w_data := 0 |} < 2 ^ aw).
+  { cbn [addr]. pose proof (pow2_pos aw Haw). lia. }
+  destruct (tree_flat_hw aw h Haw Hg (tr ++ [(b, rv)]) [] _ Hr Hb0) as [_ Hrd].
+  unfold s. rewrite Hrd. clear Hrd.
+  pose proof (leaves_disjoint h 0 aw Haw Hg) as Hd. fold (hw_leaves aw h) in Hd.
+  pose proof (hw_wf_leaves h 0 aw Hwf) as Hl. fold (hw_leaves aw h) in Hl. rewrite Forall_forall in Hl.
+  split; [|split].
+  - intros L HL Hin. apply In_nth_error in HL as [k Hk].
+    apply (PD.dec_up_one_hot _ k); [rewrite nth_error_map, Hk; reflexivity|].
+    intros j x Hne Hj. rewrite nth_error_map in Hj.
+    destruct (nth_error (hw_leaves aw h) j) as [Lj|] eqn:Ej; [|discriminate]. injection Hj as <-.
+    apply leaf_rdata_unaddressed; [exact (proj1 (Hl _ (nth_error_In _ _ Ej)))|]. right. intros Hin'.
+    destruct (Nat.lt_trichotomy j k) as [Hlt|[Heq|Hgt]]; [|contradiction|].
+    + pose proof (PD.FOP_nth_lt _ _ Hd _ _ _ _ Hlt Ej Hk) as D. unfold hl_disj, hl_in in *. lia.
+    + pose proof (PD.FOP_nth_lt _ _ Hd _ _ _ _ Hgt Hk Ej) as D. unfold hl_disj, hl_in in *. lia.
+  - intros Hnone. apply PD.dec_up_zero. intros x Hx. apply in_map_iff in Hx as (L & <- & HL).
+    apply leaf_rdata_unaddressed; [exact (proj1 (Hl _ HL))|]. right. exact (Hnone L HL).
+  - intros Hs. apply PD.dec_up_zero. intros x Hx. apply in_map_iff in Hx as (L & <- & HL).
+    apply leaf_rdata_unaddressed; [exact (proj1 (Hl _ HL))|]. left. exact Hs.
+Qed.
+
+(* ------------------------------------------------------------------ strobes: the flat statement *)
+
+(* a strobe at offset x of the leaf's window is a root strobe at base + x *)
+Lemma route_hit_r base aw b x : 0 <= x < 2 ^ aw ->
+  r_stb (PD.route (msub base aw) b) && (addr (PD.route (msub base aw) b) =? x) =
+  r_stb b && (addr b =? base + x).
+Proof.
+  intros Hx. unfold PD.route, PD.in_spanb. cbn [msub s_aw s_start].
+  destruct ((base <=? addr b) && (addr b <? base + 2 ^ aw)) eqn:E; cbn [r_stb addr].
+  - f_equal. lia.
+  - assert (E' : (addr b =? base + x) = false) by lia. rewrite E'. rewrite andb_false_r. reflexivity.
+Qed.
+
+Lemma route_hit_w base aw b x : 0 <= x < 2 ^ aw ->
+  w_stb (PD.route (msub base aw) b) && (addr (PD.route (msub base aw) b) =? x) =
+  w_stb b && (addr b =? base + x).
+Proof.
+  intros Hx. unfold PD.route, PD.in_spanb. cbn [msub s_aw s_start].
+  destruct ((base <=? addr b) && (addr b <? base + 2 ^ aw)) eqn:E; cbn [w_stb addr].
+  - f_equal. lia.
+  - assert (E' : (addr b =? base + x) = false) by lia. rewrite E'. rewrite andb_false_r. reflexivity.
+Qed.
+
+(* register number k of leaf L: its id and its (leaf-local) range, inside the leaf's address space *)
+Definition leaf_reg (L : hleaf) (k : nat) (id : Z) (r : Mux.reg) : Prop :=
+  nth_error (hl_ids L) k = Some id /\ nth_error (Mux.c_regs (hl_cfg L)) k = Some r /\
+  0 <= Mux.r_start r /\ Mux.r_start r < Mux.r_stop r /\ Mux.r_stop r <= 2 ^ hl_aw L.
+
+(* C04_r_strobe_exact at the root address: in every cycle, whatever the history *)
+Lemma leaf_rstb_flat L k id r tr rv b : leaf_reg L k id r ->
+  nth_error (Mux.o_rstb (leaf_out L tr rv b)) k =
+  Some (Mux.r_rd r && r_stb b && (addr b =? hl_base L + Mux.r_start r)).
+Proof.
+  intros (_ & Hr & H0 & H1 & H2). unfold leaf_out.
+  rewrite (MuxBasic.r_strobe_exact _ _ _ _ _ Hr). f_equal.
+  unfold leaf_inp, mux_inp. cbn [Mux.i_rstb Mux.i_addr fst]. unfold hl_sub.
+  rewrite <- !andb_assoc. f_equal. apply route_hit_r. lia.
+Qed.
+
+(* C05_w_strobe_exact at the root address: one cycle after a write strobe at the last address *)
+Lemma leaf_wstb_flat L k id r tr rv b rv' b' : leaf_reg L k id r ->
+  nth_error (Mux.o_wstb (leaf_out L (tr ++ [(b, rv)]) rv' b')) k =
+  Some (Mux.r_wr r && w_stb b && (addr b =? hl_base L + Mux.r_stop r - 1)).
+Proof.
+  intros (_ & Hr & H0 & H1 & H2). unfold leaf_out. rewrite leaf_st_snoc.
+  rewrite (MuxBasic.w_strobe_next _ _ _ _ _ _ Hr). f_equal.
+  unfold leaf_inp, mux_inp. cbn [Mux.i_wstb Mux.i_addr fst]. unfold hl_sub.
+  rewrite <- !andb_assoc. f_equal. replace (hl_base L + Mux.r_stop r - 1) with (hl_base L + (Mux.r_stop r - 1)) by lia.
+  apply route_hit_w. lia.
+Qed.
+
+Lemma leaf_wstb_reset L k id r rv b : leaf_reg L k id r ->
+  nth_error (Mux.o_wstb (leaf_out L [] rv b)) k = Some false.
+Proof. intros (_ & Hr & _). unfold leaf_out, leaf_st. cbn. rewrite nth_error_map, Hr. reflexivity. Qed.
+
+(* ------------------------------------------------------------------ the element-port list *)
+
+Lemma mux_leaves_nth ids : forall rs ws wd k id r w d,
+  nth_error ids k = Some id -> nth_error rs k = Some r -> nth_error ws k = Some w -> nth_error wd k = Some d ->
+  nth_error (mux_leaves ids rs ws wd) k = Some {| lo_id := id; lo_rstb := r; lo_wstb := w; lo_wdata := d |}.
+Proof.
+  induction ids as [|i ids IH]; intros rs ws wd k id r w d Hi Hr Hw Hd; [destruct k; discriminate|].
+  destruct rs as [|r0 rs]; [destruct k; discriminate|]. destruct ws as [|w0 ws]; [destruct k; discriminate|].
+  destruct wd as [|d0 wd]; [destruct k; discriminate|]. destruct k as [|k]; cbn [nth_error mux_leaves] in *.
+  - congruence.
+  - apply IH; assumption.
+Qed.
+
+Lemma mux_leaves_In ids : forall rs ws wd lo, In lo (mux_leaves ids rs ws wd) ->
+  exists k, nth_error ids k = Some (lo_id lo) /\ nth_error rs k = Some (lo_rstb lo) /\
+            nth_error ws k = Some (lo_wstb lo) /\ nth_error wd k = Some (lo_wdata lo).
+Proof.
+  induction ids as [|i ids IH]; intros rs ws wd lo H; [contradiction|].
+  destruct rs as [|r0 rs]; [contradiction|]. destruct ws as [|w0 ws]; [contradiction|].
+  destruct wd as [|d0 wd]; [contradiction|]. cbn [mux_leaves] in H. destruct H as [<-|H].
+  - exists 0%nat. cbn. auto.
+  - destruct (IH _ _ _ _ H) as (k & Hk). exists (S k). exact Hk.
+Qed.
+
+(* ------------------------------------------------------------------ by trace position: csr_run *)
+
+Lemma csr_run_nth h : forall tr s t b rv, nth_error tr t = Some (b, rv) ->
+  nth_error (csr_run h s tr) t =
+  Some (c_rdata h (c_after h s (firstn t tr)), c_leaves h (c_after h s (firstn t tr)) rv b).
+Proof.
+  induction tr as [|[b0 rv0] tr IH]; intros s t b rv Ht; [destruct t; discriminate|].
+  destruct t as [|t]; cbn [nth_error csr_run firstn c_after fst snd] in *.
+  - injection Ht as <- <-. reflexivity.
+  - apply IH. exact Ht.
+Qed.
+
+Lemma firstn_In' {X} (l : list X) : forall t x, In x (firstn t l) -> In x l.
+Proof.
+  induction l as [|y l IH]; intros t x H; destruct t; cbn [firstn] in H; try contradiction.
+  destruct H as [<-|H]; [left; reflexivity|right; eapply IH; exact H].
+Qed.
+
+Lemma in_range_firstn aw tr t : in_range aw tr -> in_range aw (firstn t tr).
+Proof. intros H x Hx. apply H. eapply firstn_In'; exact Hx. Qed.
+
+Lemma in_range_nth aw tr t b rv : in_range aw tr -> nth_error tr t = Some (b, rv) -> 0 <= addr b < 2 ^ aw.
+Proof. intros H Ht. exact (H _ (nth_error_In _ _ Ht)). Qed.
+
+(* cycle t of the machine, for every trace: r_data and element ports are those of the leaves *)
+Theorem tree_run_flat aw h : 0 <= aw -> geom aw h -> forall tr, in_range aw tr ->
+  forall t b rv, nth_error tr t = Some (b, rv) ->
+  nth_error (csr_run h (cinit h) tr) t =
+  Some (dec_up (map (fun L => leaf_rdata L (firstn t tr)) (hw_leaves aw h)),
+        flat_map (fun L => leaf_obs L (firstn t tr) rv b) (hw_leaves aw h)).
+Proof.
+  intros Haw Hg tr Hr t b rv Ht. rewrite (csr_run_nth h tr _ t b rv Ht).
+  destruct (tree_flat_hw aw h Haw Hg (firstn t tr) rv b (in_range_firstn _ _ _ Hr) (in_range_nth _ _ _ _ _ Hr Ht))
+    as [H1 H2].
+  rewrite H1, H2. reflexivity.
+Qed.
